@@ -293,7 +293,7 @@ async def maildir_secret_scenario(history):
     from pymap.user import Passwords, UserMetadata
     from .imapdrv import MaildirWorld
     errors, sig = [], []
-    w = await MaildirWorld(layout='++').start(users=(('alice', 'apass'), ('bob', 'bpass')))
+    w = await MaildirWorld(layout='++', time_budget=30.0).start(users=(('alice', 'apass'), ('bob', 'bpass')))
     try:
         current = 'apass'
         exists = True
